@@ -374,8 +374,12 @@ func cmdCheck(args []string) {
 		by   string
 	}
 	var slow []slowOb
+	crossChecked := 0
 	for _, o := range obs {
 		solverSecs += o.Secs
+		if o.CrossChecked {
+			crossChecked++
+		}
 		if o.Expect != "sat" && o.Status == "proved" && o.Secs >= 8 {
 			slow = append(slow, slowOb{o.Name, o.Secs, o.Solver})
 		}
@@ -593,28 +597,29 @@ func cmdCheck(args []string) {
 		fmt.Printf("SLOW %s: %.1fs (%s)\n", so.name, so.secs, so.by)
 	}
 	cov := map[string]any{
-		"obligations":              total,
-		"discharged":               discharged,
-		"checker_cmd":              fmt.Sprintf("/verif/check %s %s", *prop, *tier),
-		"trusted_base":             trustedBase,
-		"samples":                  samples,
-		"explanation":              fmt.Sprintf("Contract-based deductive verification: %d functions/pairs/lemmas under contract, %d obligations generated from the current /repo sources (SSA -> VC), %d discharged by SMT; %d model-soundness range obligations discharged separately; %d vacuity covers (%d undecided). Bounded stand-ins (not proofs): %d tests, %d cases.", len(funcsUnder), total, discharged, nRange, covers, coverUnknown, len(bounded), boundedCases),
-		"functions_under_contract": funcsUnder,
-		"inlined_callees":          inl,
-		"discharged_by_backend":    byBackend,
-		"solver_seconds":           round3(solverSecs),
-		"slow_obligations":         slowList,
-		"range_obligations":        nRange,
-		"wrapped_ops":              wrappedOps,
-		"vacuity_covers":           covers,
-		"vacuity_covers_undecided": coverUnknown,
-		"bounded":                  bounded,
-		"static":                   staticRes,
-		"load_seconds":             round3(loadSecs),
-		"generate_seconds":         round3(genSecs),
-		"evaluations":              total + boundedCases,
-		"distinct_nontrivial":      discharged + boundedCases,
-		"rule":                     "one evaluation per generated obligation (each a distinct named VC) plus one per bounded case; trivially-true goals are counted as discharged by back end 'trivial'",
+		"obligations":                           total,
+		"discharged":                            discharged,
+		"checker_cmd":                           fmt.Sprintf("/verif/check %s %s", *prop, *tier),
+		"trusted_base":                          trustedBase,
+		"samples":                               samples,
+		"explanation":                           fmt.Sprintf("Contract-based deductive verification: %d functions/pairs/lemmas under contract, %d obligations generated from the current /repo sources (SSA -> VC), %d discharged by SMT; %d model-soundness range obligations discharged separately; %d vacuity covers (%d undecided). Bounded stand-ins (not proofs): %d tests, %d cases.", len(funcsUnder), total, discharged, nRange, covers, coverUnknown, len(bounded), boundedCases),
+		"functions_under_contract":              funcsUnder,
+		"inlined_callees":                       inl,
+		"discharged_by_backend":                 byBackend,
+		"solver_seconds":                        round3(solverSecs),
+		"slow_obligations":                      slowList,
+		"cross_checked_by_second_solver_family": crossChecked,
+		"range_obligations":                     nRange,
+		"wrapped_ops":                           wrappedOps,
+		"vacuity_covers":                        covers,
+		"vacuity_covers_undecided":              coverUnknown,
+		"bounded":                               bounded,
+		"static":                                staticRes,
+		"load_seconds":                          round3(loadSecs),
+		"generate_seconds":                      round3(genSecs),
+		"evaluations":                           total + boundedCases,
+		"distinct_nontrivial":                   discharged + boundedCases,
+		"rule":                                  "one evaluation per generated obligation (each a distinct named VC) plus one per bounded case; trivially-true goals are counted as discharged by back end 'trivial'",
 	}
 	if len(samples) == 0 {
 		cov["samples"] = []map[string]any{{"note": "no SMT-discharged obligation in this run"}}
